@@ -107,7 +107,7 @@ def run(gen, seed, seconds):
         n_seed = len(os.listdir(corpus))
         dict_file = os.path.join(scratch, "dict")
         with open(dict_file, "w") as f:
-            for tok in gen.DICT + ["\x1f", "seq(", "from=", "to=", "step=", "size=", "values=", "probas=", "dist=", "n=", "ranges="]:
+            for tok in gen.DICT + ["\x1f", "seq(", "from=", "to=", "step=", "size=", "values=", "probas=", "dist=", "n=", "ranges="] + list(getattr(gen, "READER_DICT", [])):
                 f.write('"%s"\n' % "".join("\\x%02x" % ord(c) for c in tok))
         env = dict(os.environ)
         env["ASAN_OPTIONS"] = "detect_leaks=0:abort_on_error=0:allocator_may_return_null=0"
